@@ -540,12 +540,12 @@ Lemma monitor_sound c :
   accepts c = true -> Forall (fun k => k = k_dup_disjoint) (viol_kinds c).
 Proof.
   intros Ha. destruct (accepts_exec c Ha) as (s & He).
-  pose proof (sim_exec (fun _ => True) _ c.2 (init c.1.1) (mon_init c.1.1) s
+  pose proof (sim_exec (fun _ => True) (lookup_pmax c.1.2) c.2 (init c.1.1) (mon_init c.1.1) s
                 (Inv_init _) (sim_init _ _)) as HS.
   assert (HP : Forall (ev_P (fun _ : nview => True)) c.2).
   { apply Forall_forall. intros e _. destruct e; simpl; auto. }
   specialize (HS HP He). unfold viol_kinds, mon_run.
-  apply Forall_forall. intros k Hk. apply elem_of_remove_dups in Hk.
+  apply Forall_forall. intros k Hk. rewrite elem_of_remove_dups in Hk.
   pose proof (sim_kinds _ _ _ HS) as Hks. rewrite Forall_forall in Hks.
   destruct (Hks k Hk) as [E _]. exact E.
 Qed.
@@ -557,7 +557,7 @@ Lemma monitor_sound_guarded c :
   ok_C11 c = true.
 Proof.
   intros Ha Hg. destruct (accepts_exec c Ha) as (s & He).
-  pose proof (sim_exec (fun v => v ∈ snaps c.2) _ c.2 (init c.1.1) (mon_init c.1.1) s
+  pose proof (sim_exec (fun v => v ∈ snaps c.2) (lookup_pmax c.1.2) c.2 (init c.1.1) (mon_init c.1.1) s
                 (Inv_init _) (sim_init _ _) (ev_P_snaps c.2) He) as HS.
   unfold ok_C11, viol_kinds, mon_run. apply bool_decide_eq_true.
   pose proof (sim_kinds _ _ _ HS) as Hks.
